@@ -134,9 +134,17 @@ func minimiseCli(r *clisim.Runner, sc *clisim.Scenario, key, id string, budget i
 			if st.Kind != clisim.StepRun {
 				continue
 			}
+			if st.Fault2 != nil {
+				c := clone(best)
+				c.Steps[i].Fault2 = nil
+				if try(c) {
+					best, changed = c, true
+					continue
+				}
+			}
 			if st.Fault != nil {
 				c := clone(best)
-				c.Steps[i].Fault = nil
+				c.Steps[i].Fault, c.Steps[i].Fault2 = nil, nil
 				if try(c) {
 					best, changed = c, true
 					continue
